@@ -220,7 +220,7 @@ impl Prop for C09 {
         ]
     }
     fn cases(&self, tier: Tier) -> u32 {
-        tier.pick(800, 15_000)
+        tier.pick(2400, 15_000)
     }
     fn min_nontrivial(&self, tier: Tier) -> usize {
         tier.pick(200, 1500)
